@@ -444,7 +444,7 @@ func (a *Adversary) forgedNV(h uint64) bool {
 	for _, id := range voteIds(votes) {
 		have[id] = true
 	}
-	variant := a.r.Intn(7)
+	variant := a.r.Intn(8)
 	// fill up to quorum with forged votes
 	for _, m := range c.Members {
 		id := string(m.Id)
@@ -468,6 +468,9 @@ func (a *Adversary) forgedNV(h uint64) bool {
 			}
 		case 3: // duplicates of the leader's own vote
 			vt = a.mkVote(leader, inst, h, v, nil)
+		case 7: // the member's genuine vote of the OTHER instance (same keys) for this height and view
+			vt = &ref.Vote{Type: ref.VC, Inst: uint64(spi.OtherInstanceId), H: h, V: v}
+			vt.Sender = ref.Sig{Id: id, Sig: a.signOther(id, h, vt.HeaderBytes())}
 		case 4: // outsider votes with valid keys
 			if len(a.outs) == 0 {
 				return false
@@ -678,7 +681,7 @@ func (a *Adversary) vcGames(h uint64) bool {
 	}
 	E := a.newBlock(h, false)
 	var raw *interfaces.ConsensusRawMessage
-	switch a.r.Intn(8) {
+	switch a.r.Intn(9) {
 	case 0: // genuine proof, no block
 		if gp == nil {
 			return false
@@ -698,6 +701,9 @@ func (a *Adversary) vcGames(h uint64) bool {
 		raw = ref.RawVoteMsg(a.mkVote(b, inst, h, v, nil), E)
 	case 4: // forged proof with its block
 		raw = ref.RawVoteMsg(a.mkVote(b, inst, h, v, a.forgeProof(h, v-1, E)), E)
+	case 8: // a genuine prepared proof of the OTHER instance (same member keys) for a block of that instance
+		op := a.otherInstanceProof(h, v-1, E)
+		raw = ref.RawVoteMsg(a.mkVote(b, inst, h, v, op), E)
 	case 7: // spliced proof: the Byzantine leader's own PREPREPARE ref for hash X over genuine PREPAREs for hash Y
 		sp := a.splicedProof(h, v, E)
 		if sp == nil {
@@ -1135,4 +1141,28 @@ func (a *Adversary) splicedProof(h, v uint64, blk *spi.Blk) *ref.Proof {
 		return p
 	}
 	return nil
+}
+
+
+// otherInstanceProof: what a quorum of members genuinely signed in the parallel instance for blk at view pv.
+func (a *Adversary) otherInstanceProof(h, pv uint64, blk *spi.Blk) *ref.Proof {
+	c := a.w.Comm(h)
+	oi := uint64(spi.OtherInstanceId)
+	pp := &ref.Ref{Type: ref.PP, Inst: oi, H: h, V: pv, Hash: spi.HashOf(blk)}
+	pr := &ref.Ref{Type: ref.P, Inst: oi, H: h, V: pv, Hash: spi.HashOf(blk)}
+	leader := c.Leader(pv)
+	p := &ref.Proof{PPRef: pp, PRef: pr, PPSender: &ref.Sig{Id: leader, Sig: a.signOther(leader, h, pp.Bytes())}}
+	ids := []string{leader}
+	for _, m := range c.Members {
+		id := string(m.Id)
+		if id == leader {
+			continue
+		}
+		p.PSenders = append(p.PSenders, ref.Sig{Id: id, Sig: a.signOther(id, h, pr.Bytes())})
+		ids = append(ids, id)
+		if c.IsQuorum(ids) {
+			break
+		}
+	}
+	return p
 }
